@@ -132,6 +132,7 @@ func (f *capFace) SendPacket(out dispatch.OutPkt) {
 // ---- one execution ---------------------------------------------------------------
 type fwdExec struct {
 	seenI   []fwdIn // Interests generated so far in this execution (generator state only)
+	follow *fwdIn // set by a FIB change made for a pending Interest: the next action repeats that Interest with another nonce
 	th      *fw.Thread
 	pcs     *table.PitCsTree
 	t0      time.Time
@@ -464,7 +465,8 @@ func (x *fwdExec) step1(a fwdAct) map[string]any {
 	sh := x.pcs.VerifShape()
 	ev["obs"] = map[string]int{"npit": sh.NPit, "ncs": sh.NCs, "ents": len(sh.Entries), "csn": len(sh.CsNames),
 		"nodes": sh.Nodes, "dead": sh.DeadLeaves, "lru": sh.LruLen, "tokmap": sh.TokenMap, "queue": sh.QueueLen,
-		"unsched": countUnsched(sh), "dnl": th.VerifDNL().VerifLen(), "live": liveNodes(sh)}
+		"unsched": countUnsched(sh), "dnl": th.VerifDNL().VerifLen(), "live": liveNodes(sh),
+		"rpit": th.GetNumPitEntries(), "rcs": th.GetNumCsEntries(), "tpit": x.pcs.PitSize(), "tcs": x.pcs.CsSize()} // sizes as reported to management / applications
 	return ev
 }
 
@@ -577,6 +579,17 @@ var fwdINames = []string{"/a", "/a/b", "/a/b/c", "/d", "/localhost/x", "/", fwdC
 var fwdDNames = []string{"/", "/a", "/a/b", "/a/b/c", "/a/b/c/e", "/d", "/d/f", "/localhost/x", "/localhost/x/y", fwdCollide, "/a/b", fwdTyped}
 
 func genFwdAct(rng *rand.Rand, x *fwdExec, i, nEv int) fwdAct {
+	if x.follow != nil { // the same Interest again, other nonce, inside the suppression interval, after the FIB changed under it
+		in := *x.follow
+		x.follow = nil
+		in.Nonce = 7 + (in.Nonce-7+1+rng.Intn(2))%3
+		if rng.Intn(2) == 0 {
+			in.F = fwdFaces[rng.Intn(len(fwdFaces))]
+		}
+		in.Dtok = in.F*10 + rng.Intn(2)
+		x.seenI = append(x.seenI, in)
+		return fwdAct{Ev: "I", I: in}
+	}
 	switch k := rng.Intn(100); {
 	case k < 40:
 		in := fwdIn{F: fwdFaces[rng.Intn(len(fwdFaces))], N: strs(fwdINames[rng.Intn(len(fwdINames))]),
@@ -639,6 +652,23 @@ func genFwdAct(rng *rand.Rand, x *fwdExec, i, nEv int) fwdAct {
 	case k < 95:
 		pfx := []string{"/", "/a", "/a/b", "/d", "/h", "/localhost"}[rng.Intn(6)]
 		g := fwdFaces[rng.Intn(len(fwdFaces))]
+		if len(x.seenI) > 0 && rng.Intn(2) == 0 { // a next hop appears (or goes) on the route of the Interest just seen, which then comes again
+			p := x.seenI[len(x.seenI)-1]
+			if p.Nonce >= 7 && len(p.N) > 0 && p.N[0] != "localhost" {
+				x.follow = &p
+				n := p.N
+				if len(p.Hints) > 0 {
+					n = p.Hints[0]
+				}
+				if len(n) > 1 && rng.Intn(2) == 0 {
+					n = n[:1]
+				}
+				if rng.Intn(5) == 0 {
+					return fwdAct{Ev: "E", E: "fib-", P: n, G: g}
+				}
+				return fwdAct{Ev: "E", E: "fib+", P: n, G: g, C: 1 + rng.Intn(3)}
+			}
+		}
 		if rng.Intn(4) == 0 {
 			return fwdAct{Ev: "E", E: "fib-", P: strs(pfx), G: g}
 		}
@@ -676,6 +706,12 @@ func TestFwdGen(t *testing.T) {
 		total += runFwdExecution(t, w, []int{0, 1, 2, 2, 6}[rng.Intn(5)], algo, func(x *fwdExec, i int) (fwdAct, bool) {
 			if i >= nEv {
 				return fwdAct{}, false
+			}
+			if tr%3 == 2 && i == 0 { // a third of the executions forward by multicast from the root down (best-route is the default)
+				return fwdAct{Ev: "E", E: "strat+", P: []string{}, S: "multicast"}, true
+			}
+			if tr%3 == 2 && i < 3 { // ... with two next hops at the root to begin with
+				return fwdAct{Ev: "E", E: "fib+", P: []string{}, G: fwdFaces[rng.Intn(len(fwdFaces))], C: 1 + rng.Intn(3)}, true
 			}
 			if tr%3 == 1 && i < 2 { // routes for the forwarding hints of the universe, towards non-local and local faces
 				return fwdAct{Ev: "E", E: "fib+", P: strs([]string{"/h", "/r/x"}[i]), G: []int{3, 4, 1, 5}[rng.Intn(4)], C: 1 + rng.Intn(3)}, true
